@@ -201,6 +201,7 @@ func checkC07(ctx *Ctx) *Result {
 		}
 		r.check(good, "R7.6", "Reconfigure", ctx.P.Pos(rc.Pos()), detail, len(mf.Paths))
 	}
+	wrapReturnsClosure(ctx, r, "R11.6")
 	// R7.5
 	we := ctx.WE()
 	entries := []*ssa.Function{}
